@@ -49,10 +49,19 @@ func (s *Script) obligations() []*Obligation {
 // instances enumerates the cartesian product of the split ranges.
 func (s *Script) instances() [][]int {
 	out := [][]int{{}}
-	for _, sp := range s.Splits {
+	for si, sp := range s.Splits {
 		var next [][]int
 		for _, base := range out {
-			for v := sp.Lo; v <= sp.Hi; v++ {
+			hi := sp.Hi
+			if sp.HiVar != "" {
+				hi = sp.Lo - 1
+				for pj := 0; pj < si; pj++ {
+					if s.Splits[pj].Var == sp.HiVar {
+						hi = base[pj] + sp.HiOff
+					}
+				}
+			}
+			for v := sp.Lo; v <= hi; v++ {
 				inst := append(append([]int{}, base...), v)
 				next = append(next, inst)
 			}
@@ -85,6 +94,30 @@ func (vc *VC) globalDecls() string {
 		fmt.Fprintf(&sb, "(declare-const %s!0 %s)\n", k, vc.heapSorts[k].SMT())
 	}
 	sb.WriteString("(declare-const top!0 Int)\n(assert (>= top!0 0))\n")
+	if vc.cs != nil {
+		var names []string
+		for n, d := range vc.cs.Defs {
+			if d.Rec {
+				names = append(names, n)
+			}
+		}
+		sort.Strings(names)
+		for _, n := range names {
+			d := vc.cs.Defs[n]
+			vars := map[string]Term{}
+			var ps []string
+			for _, p := range d.Params {
+				vars[p] = Term{S: "a!" + p, Sort: SInt}
+				ps = append(ps, "(a!"+p+" Int)")
+			}
+			body, err := ToSMT(d.Body, &Env{Vars: vars, Defs: vc.cs.Defs})
+			if err != nil {
+				fmt.Fprintf(&sb, "; definerec %s: %v\n", n, err)
+				continue
+			}
+			fmt.Fprintf(&sb, "(define-fun-rec spec.%s (%s) Int %s)\n", n, strings.Join(ps, " "), body.S)
+		}
+	}
 	return sb.String()
 }
 
@@ -154,6 +187,15 @@ func (s *Script) renderInstance(sb *strings.Builder, instIdx int, inst []int, on
 	for ii, it := range s.Items {
 		if it.Ob == nil {
 			text := it.Text
+			if len(s.SplitConsts) > 0 && strings.HasPrefix(text, "(declare-const ") {
+				fl := strings.Fields(text)
+				if sv, ok := s.SplitConsts[fl[1]]; ok {
+					if v, ok := splitVal[sv]; ok {
+						text = fmt.Sprintf("(define-fun %s () Int %s)", fl[1], IntLit(int64(v)).S)
+						fd.env[fl[1]] = numSx(big.NewInt(int64(v)))
+					}
+				}
+			}
 			if fd != nil {
 				text = fd.foldLine(text, s.parsed[ii])
 				if text == "" {
@@ -412,14 +454,18 @@ func (r *Runner) Run(scripts []*Script) []*ObResult {
 			retry = append(retry, res)
 		}
 	}
+	if os.Getenv("GOVC_STATS") != "" {
+		fmt.Fprintf(os.Stderr, "stats: results=%d retry=%d solverMs=%v calls=%v\n", len(results), len(retry), r.SolverMs, r.Calls)
+	}
 	if len(retry) > 0 {
 		// bound the per-obligation effort: a few instances per obligation name
 		perName := map[string]int{}
 		var lim []*ObResult
 		for _, res := range retry {
-			k := res.Ob.Func + "/" + res.Ob.Name
+			k := res.Ob.Func + "/" + res.Ob.Name + "/" + res.Status
 			perName[k]++
-			if perName[k] <= 3 {
+			// definite counterexamples: a few models are enough; undecided ones get the full timeout
+			if (res.Status == "sat" && perName[k] <= 3) || (res.Status != "sat" && perName[k] <= 300) {
 				lim = append(lim, res)
 			}
 		}
@@ -529,6 +575,9 @@ func (r *Runner) runJob(header string, sc *Script, insts [][]int, base int) []*O
 	}
 	if len(redo) > 0 {
 		r.noteFailures(sc, len(redo))
+		if os.Getenv("GOVC_STATS") != "" {
+			fmt.Fprintf(os.Stderr, "stats: job base=%d redo=%d of %d\n", base, len(redo), len(insts))
+		}
 	}
 	var results []*ObResult
 	for i, inst := range insts {
